@@ -100,6 +100,12 @@ def fam_api_text(rng, idx, cfg, lists, fmt):
         steps.append({"s": "new", "files": [[fname, fmt]]})
     else:
         steps += [{"s": "new"}, {"s": "add_file", "file": fname, "fmt": fmt}]
+    if rng.random() < 0.35:
+        # one more reaction given as a (string, format) pair
+        ar = dict(pool_lines(rng, cfg, 1, fmt)[0], alpha=3.3e-11)
+        if not net.get("allowed_species") or all(W.CONFIGS[cfg]["spell"][k] in net["allowed_species"] for k in W.species_of(ar)):
+            steps.append({"s": "add_str", "line": W.encode(cfg, ar, fmt, 77) + "\n", "fmt": fmt})
+            n += 1
     if rng.random() < 0.3:
         ar = pool_lines(rng, cfg, 1, "naunet")[0]
         sp = W.CONFIGS[cfg]["spell"]
@@ -108,7 +114,13 @@ def fam_api_text(rng, idx, cfg, lists, fmt):
                           "pseudo": [W.CONFIGS[cfg]["pseudo_names"][ar["pseudo"]]] if ar["pseudo"] else [],
                           "alpha": 7.7e-11, "rtype": ar["rtype"], "idx": 99})
             n += 1
-    steps += api_tail(rng, n, can_edit=not net.get("ode_modifier"))
+    if rng.random() < 0.25 and not net.get("ode_modifier") and len(names) > 3:
+        # narrow the network after the fact; the property promises the same result as constructing it so
+        steps.append({"s": "set_allowed", "names": [x for x in names if rng.random() < 0.85] or names})
+    steps += api_tail(rng, n, can_edit=False if net.get("ode_modifier") else True)
+    for st in steps:
+        if st["s"] == "touch":
+            st["where"] = rng.choice(names)
     return {"id": f"api-{cfg}-{fmt}-{idx}", "family": f"api-{cfg}-{fmt}", "entry": "api", "name": "simproj",
             "files": {fname: content}, "net": net, "steps": steps}
 
